@@ -57,14 +57,23 @@ def judge(P, ver, prefix, emitted, source, case):
     P.violation("official-pattern", "C08:v%s:%s:%s" % (ver, source, why), case, emitted=emitted)
 
 
-def check_vector(P, ver, s):
+def check_vector(P, ver, s, built=None):
+    """built: how the judged object is obtained (obs.build): None = the constructor, else from_rh_vector / a copy /
+    a pickle round trip / the text extractor -- what such an object emits must be valid just the same."""
     L = lib()
     P.evaluations += 1
     case = {"ver": ver, "vector": s}
-    ok, o = obs.call(L.CLS[ver], s)
+    if built:
+        case["built"] = built
+    ok, o = obs.call(obs.build, L, ver, s, built)
     if not ok:
         P.violation("construct", "C08:v%s:exception:%s" % (ver, obs.exc_name(o)), case, error=repr(o))
         return
+    if o is None:
+        P.stratum("object-not-obtainable-by:" + str(built))
+        return
+    if built:
+        P.stratum("object-obtained-by:" + built)
     prefix = T.split_prefix(ver, s)[0]
     ok, c = obs.call(o.clean_vector)
     if not ok:
@@ -150,7 +159,7 @@ def check_case(P, case):
     elif "precalls" in case:
         check_vector_after(P, case["ver"], case["vector"], case["precalls"])
     else:
-        check_vector(P, case["ver"], case["vector"])
+        check_vector(P, case["ver"], case["vector"], case.get("built"))
 
 
 def optional_shapes(rng, ver, all_values, n_random):
@@ -193,6 +202,8 @@ def shard_vectors(P, ver, prefix, all_values, n_random, seed):
         check_vector_after(P, ver, s, [rng.choice(names)])
         if rng.random() < 0.3:
             check_vector_after(P, ver, s, [rng.choice(names) for _ in range(rng.randint(2, 4))])
+        # the same input, the object obtained in another way (from_rh_vector, a copy, the text extractor ...)
+        check_vector(P, ver, s, obs.BUILT[P.evaluations % len(obs.BUILT)])
         # inputs written group by group, with the groups in another order than the official one
         # (all permutations when every optional metric is defined, else two at random)
         for ks in V.block_orderings(ver, m, rng, None if len(sh) == len(T.OPTIONAL[ver]) else 2):
@@ -201,6 +212,7 @@ def shard_vectors(P, ver, prefix, all_values, n_random, seed):
                 P.dist((ver, s2))
                 P.stratum("v%s:input-in-group-blocks" % ver)
                 check_vector(P, ver, s2)
+                check_vector(P, ver, s2, "from_rh_vector")
         if P.evaluations % 1501 == 1:
             P.sample({"ver": ver, "vector": s})
 
